@@ -88,13 +88,7 @@ class Lexer:
 
     # Operators that are spelled as a word, so that they look like a function
     # name when they are followed by a parenthesis.
-    OPERATOR_WORDS = {
-        "and": TOKEN_AND,
-        "or": TOKEN_OR,
-        "not": TOKEN_NOT,
-        "in": TOKEN_IN,
-        "contains": TOKEN_CONTAINS,
-    }
+    OPERATOR_WORDS = frozenset(["and", "or", "not", "in", "contains"])
 
     key_pattern = r"[\u0080-\U0010FFFFa-zA-Z_][\u0080-\U0010FFFFa-zA-Z0-9_-]*"
 
@@ -218,9 +212,31 @@ class Lexer:
         """Generate a sequence of tokens from a JSONPath string."""
         _token = partial(Token, path=path)
 
-        for match in self.rules.finditer(path):
+        pos = 0
+        end = len(path)
+        stop = end
+
+        while pos < end:
+            # Every character matches some rule, the last one if no other.
+            match = self.rules.match(path, pos, stop)
+            assert match is not None
             kind = match.lastgroup
             assert kind is not None
+            stop = end
+
+            if (
+                kind == TOKEN_FUNCTION
+                and match.group("G_FUNC") in self.OPERATOR_WORDS
+                and match.group("G_FUNC") not in self.env.function_extensions
+            ):
+                # An operator spelled as a word and followed by a parenthesis,
+                # as in `not(@.a)`, is not a function call. Scan the word again
+                # on its own, so that it means what this lexer's rules say it
+                # means, and then the parenthesis and what follows it.
+                stop = match.end("G_FUNC")
+                continue
+
+            pos = match.end()
 
             if kind == TOKEN_DOT_PROPERTY:
                 yield _token(
@@ -304,29 +320,11 @@ class Lexer:
                     index=match.start(),
                 )
             elif kind == TOKEN_FUNCTION:
-                name = match.group("G_FUNC")
-                if (
-                    name in self.OPERATOR_WORDS
-                    and name not in self.env.function_extensions
-                ):
-                    # An operator spelled as a word and followed by a parenthesis,
-                    # as in `not(@.a)`, is not a function call.
-                    yield _token(
-                        kind=self.OPERATOR_WORDS[name],
-                        value=name,
-                        index=match.start("G_FUNC"),
-                    )
-                    yield _token(
-                        kind=TOKEN_LPAREN,
-                        value="(",
-                        index=match.end("G_FUNC"),
-                    )
-                else:
-                    yield _token(
-                        kind=TOKEN_FUNCTION,
-                        value=name,
-                        index=match.start("G_FUNC"),
-                    )
+                yield _token(
+                    kind=TOKEN_FUNCTION,
+                    value=match.group("G_FUNC"),
+                    index=match.start("G_FUNC"),
+                )
             elif kind == TOKEN_SKIP:
                 continue
             elif kind == TOKEN_ILLEGAL:
